@@ -125,6 +125,19 @@ func (l *structLeaf) MarshalBinary() ([]byte, error) {
 	return append(append([]byte{}, l.a...), l.b...), nil
 }
 
+// scratchLeaf marshals into one buffer shared by all leaves of a list: the returned slice is valid only
+// until the next MarshalBinary call (a marshaler is free to work like that; Hash must consume each
+// encoding before asking for the next one).
+type scratchLeaf struct {
+	content []byte
+	buf     *[]byte
+}
+
+func (l scratchLeaf) MarshalBinary() ([]byte, error) {
+	*l.buf = append((*l.buf)[:0], l.content...)
+	return *l.buf, nil
+}
+
 // nilLeaf marshals to a nil slice with a nil error: the empty encoding, like []byte{}.
 type nilLeaf struct{}
 
@@ -250,6 +263,17 @@ func checkTree(c treeCase) (h.Info, error) {
 	g2, err := hasher.Hash(alt)
 	if err != nil || !bytes.Equal(g2, got) {
 		return info, fmt.Errorf("same marshalled content through another leaf type gives %x, %v (want %x)", g2, err, got)
+	}
+	// leaves that marshal into one shared scratch buffer
+	if n >= 2 {
+		shared := make([]byte, 0, 2048)
+		fourth := make([]encoding.BinaryMarshaler, n)
+		for i := range fourth {
+			fourth[i] = scratchLeaf{raw[i], &shared}
+		}
+		if g4, err := hasher.Hash(fourth); err != nil || !bytes.Equal(g4, got) {
+			return info, fmt.Errorf("the same %d leaves marshalled through one shared scratch buffer (each encoding valid until the next MarshalBinary call) give %x, %v (want %x)", n, g4, err, got)
+		}
 	}
 	// an empty leaf may come as a nil slice
 	hasEmpty := false
